@@ -7,7 +7,8 @@
 (*   ne : number of event ids (events are 1..ne, 0 = ANY in routes and     *)
 (*        "default" in handlers)                                           *)
 (*   ms : sequence of machines, 1 = root; a machine is                     *)
-(*        [init, cc (1 = state-changed callback installed), ss]            *)
+(*        [init (id of the initial state; may be 0, the user-defined      *)
+(*        state 0), cc (1 = state-changed callback installed), ss]         *)
 (*        ss = sequence of states [id, en, ex (1 = enter/exit action       *)
 (*             installed), sub (machine index or 0), rs, hd]; id 0 is a    *)
 (*             user-defined terminal state: an ordinary state (it may have *)
